@@ -139,7 +139,7 @@ class Crashed(Exception):
 def drive(binary, args, timeout=900):
     rc, so, se = vlib.run_driver(binary, args, timeout=timeout)
     if rc != 0:
-        if rc is not None and "panic:" in (se or ""):
+        if rc is not None and vlib.code_panic(se):
             raise Crashed((se or "")[(se or "").index("panic:"):][:3000])
         raise vlib.Inconclusive("announce driver failed (rc=%s): %s" % (rc, (se or "")[-3000:]))
     return json.loads(so.strip().splitlines()[-1])
